@@ -1,6 +1,6 @@
 //! Derived structs and enums (gluon_codegen derive macros + serde derives).
 use super::gvw::Gv;
-use super::marsh::{conforms_product, Marsh};
+use super::marsh::{conforms_product, def_match, Marsh};
 use gluon_codegen::{Getable, Pushable, VmType};
 use gv::rng::Rng;
 use serde_derive::{Deserialize, Serialize};
@@ -97,11 +97,11 @@ impl Marsh for Point {
     fn lit(&self) -> Option<String> {
         Some(format!("{{ x = {}, y = {} }}", self.x.lit()?, self.y.lit()?))
     }
-    fn obs_fn() -> String {
+    fn obs_fn(defs: &mut Vec<String>) -> String {
         format!(
             "(\\x -> cat3 \"{{x=\" ({} x.x) (cat3 \";y=\" ({} x.y) \"}}\"))",
-            i32::obs_fn(),
-            f64::obs_fn()
+            i32::obs_fn(defs),
+            f64::obs_fn(defs)
         )
     }
     fn obs(&self) -> String {
@@ -160,13 +160,13 @@ impl Marsh for Rec {
             self.opt.lit()?
         ))
     }
-    fn obs_fn() -> String {
+    fn obs_fn(defs: &mut Vec<String>) -> String {
         format!(
             "(\\x -> cat3 \"{{zeta=\" ({} x.zeta) (cat3 \";alpha=\" ({} x.alpha) (cat3 \";pos=\" ({} x.pos) (cat3 \";opt=\" ({} x.opt) \"}}\"))))",
-            String::obs_fn(),
-            Vec::<String>::obs_fn(),
-            Point::obs_fn(),
-            Option::<u8>::obs_fn()
+            String::obs_fn(defs),
+            Vec::<String>::obs_fn(defs),
+            Point::obs_fn(defs),
+            Option::<u8>::obs_fn(defs)
         )
     }
     fn obs(&self) -> String {
@@ -210,8 +210,8 @@ impl Marsh for Wrap {
     fn lit(&self) -> Option<String> {
         self.0.lit()
     }
-    fn obs_fn() -> String {
-        i64::obs_fn()
+    fn obs_fn(defs: &mut Vec<String>) -> String {
+        i64::obs_fn(defs)
     }
     fn obs(&self) -> String {
         self.0.obs()
@@ -243,8 +243,8 @@ impl Marsh for Pair {
     fn lit(&self) -> Option<String> {
         Some(format!("({}, {})", self.0.lit()?, self.1.lit()?))
     }
-    fn obs_fn() -> String {
-        <(u8, String)>::obs_fn()
+    fn obs_fn(defs: &mut Vec<String>) -> String {
+        <(u8, String)>::obs_fn(defs)
     }
     fn obs(&self) -> String {
         format!("({};{})", self.0.obs(), self.1.obs())
@@ -279,7 +279,7 @@ impl Marsh for Unit {
     fn lit(&self) -> Option<String> {
         Some("()".into())
     }
-    fn obs_fn() -> String {
+    fn obs_fn(defs: &mut Vec<String>) -> String {
         "(\\x -> \"U\")".into()
     }
     fn obs(&self) -> String {
@@ -315,8 +315,8 @@ impl Marsh for Color {
     fn lit(&self) -> Option<String> {
         Some(self.obs())
     }
-    fn obs_fn() -> String {
-        "(\\x -> match x with | Red -> \"Red\" | Green -> \"Green\" | Blue -> \"Blue\")".into()
+    fn obs_fn(defs: &mut Vec<String>) -> String {
+        def_match(defs, "Color", &["Red -> \"Red\"", "Green -> \"Green\"", "Blue -> \"Blue\""])
     }
     fn obs(&self) -> String {
         format!("{:?}", self)
@@ -386,17 +386,23 @@ impl Marsh for Shape {
             Shape::Last => "Last".into(),
         })
     }
-    fn obs_fn() -> String {
-        format!(
-            "(\\x -> match x with | Empty -> \"Empty\" | Circle r -> cat3 \"Circle(\" ({f} r) \")\" \
-             | Rect r -> cat3 \"Rect{{w=\" ({u} r.w) (cat3 \";h=\" ({u} r.h) \"}}\") \
-             | Tagged s o -> cat3 \"Tagged(\" ({s} s) (cat3 \";\" ({o} o) \")\") \
-             | Nested p -> cat3 \"Nested(\" ({p} p) \")\" | Last -> \"Last\")",
-            f = f64::obs_fn(),
-            u = u32::obs_fn(),
-            s = String::obs_fn(),
-            o = Option::<i32>::obs_fn(),
-            p = Point::obs_fn()
+    fn obs_fn(defs: &mut Vec<String>) -> String {
+        let f = f64::obs_fn(defs);
+        let u = u32::obs_fn(defs);
+        let st = String::obs_fn(defs);
+        let o = Option::<i32>::obs_fn(defs);
+        let p = Point::obs_fn(defs);
+        def_match(
+            defs,
+            "Shape",
+            &[
+                "Empty -> \"Empty\"",
+                &format!("Circle r -> cat3 \"Circle(\" ({} r) \")\"", f),
+                &format!("Rect r -> cat3 \"Rect{{w=\" ({u} r.w) (cat3 \";h=\" ({u} r.h) \"}}\")", u = u),
+                &format!("Tagged s o -> cat3 \"Tagged(\" ({} s) (cat3 \";\" ({} o) \")\")", st, o),
+                &format!("Nested p -> cat3 \"Nested(\" ({} p) \")\"", p),
+                "Last -> \"Last\"",
+            ],
         )
     }
     fn obs(&self) -> String {
